@@ -691,3 +691,37 @@ func deepRealCase(r *rand.Rand) (*Grid, [][]Pt, int, bool) {
 }
 
 var lastDeepKind string
+
+// genCHoleIsland: a shell, a C-shaped hole whose band is thinner than a pixel of the deepest level and whose mouth is
+// narrower still (after snapping the band collapses: the hole's routed ring splits into an island outline and an equal
+// ring the other way round), and a square hole inside the island enclosed by the C, more than two pixels wide, so that
+// locations in it are farther than one pixel from every boundary.  Found wanting by a seeding agent's generator (F16).
+func genCHoleIsland(r *rand.Rand, g *Grid) ([][]Pt, bool) {
+	P := g.Res
+	size := int64(1) << g.Deep
+	if size < 14 || P < 64 {
+		return nil, false
+	}
+	bx := 1 + r.Int63n(size-12)
+	by := 1 + r.Int63n(size-12)
+	X := func(px int64, frac int64) int64 { return g.Ext[0] + (bx+px)*P + P*frac/64 }
+	Y := func(px int64, frac int64) int64 { return g.Ext[1] + (by+px)*P + P*frac/64 }
+	a := 5 + r.Int63n(2)                         // the island is about a pixels wide
+	in0, in1 := 20+r.Int63n(12), 20+r.Int63n(12) // inner side of the band: fraction of a pixel past the pixel border
+	w := 14 + r.Int63n(10)                       // band width in 1/64 pixel (< 1/2 pixel)
+	mouth := 4 + r.Int63n(6)                     // mouth width in 1/64 pixel
+	mid := a * 32                                // middle of the top side, in 1/64 pixel from pixel 1
+	ix0, iy0 := X(1, in0), Y(1, in1)
+	ix1, iy1 := X(1+a, -in0), Y(1+a, -in1)
+	ox0, oy0, ox1, oy1 := ix0-P*w/64, iy0-P*w/64, ix1+P*w/64, iy1+P*w/64
+	mx0, mx1 := X(1, mid-mouth/2), X(1, mid+mouth/2+1)
+	hole := []Pt{{mx0, iy1}, {ix0, iy1}, {ix0, iy0}, {ix1, iy0}, {ix1, iy1}, {mx1, iy1}, {mx1, oy1}, {ox1, oy1}, {ox1, oy0}, {ox0, oy0}, {ox0, oy1}, {mx0, oy1}}
+	inset := P * (58 + r.Int63n(10)) / 64 // just under one pixel
+	sq := []Pt{{ix0 + inset, iy1 - inset}, {ix0 + inset, iy0 + inset}, {ix1 - inset, iy0 + inset}, {ix1 - inset, iy1 - inset}}
+	shell := []Pt{{X(1+a+1, 30+r.Int63n(30)), Y(1+a+1, 30+r.Int63n(30))}, {X(0, 0), Y(1+a+1, 35)}, {X(0, 0), Y(0, 0)}, {X(1+a+1, 35), Y(0, 0)}}
+	poly := [][]Pt{shell, hole, sq}
+	if !g.inGrid(poly) || !validPolygon(poly) {
+		return nil, false
+	}
+	return poly, true
+}
